@@ -25,6 +25,7 @@ def main():
     ap.add_argument("--tiers", default="quick,thorough")
     ap.add_argument("--show", type=int, default=15)
     ap.add_argument("--keys", default="")
+    ap.add_argument("--write-partial", action="store_true", help="write the extension although not both tiers were run")
     a = ap.parse_args()
     pid = a.prop.upper()
     findings = [f for f in core.load_findings(pid) if f.get("status") == "known"]
@@ -78,6 +79,9 @@ def main():
             for c, i, fa, ob, tier in unattributed[: a.show]:
                 print("   idx=%d tier=%s x%d\n      facts=%s\n      obs=%s" % (i, tier, c, core.jkey(fa), core.jkey(ob)))
         sys.exit(1)
+    if set(a.tiers.split(",")) != {"quick", "thorough"} and not a.write_partial:
+        print("not writing known/%s.json: only tier(s) %s were run (use both tiers, or --write-partial)" % (pid, a.tiers))
+        return
     out = {"property": pid, "generated_by": "mc.baseline (developer tool; checks never write this file)",
            "groups_per_tier": per_tier,
            "groups": {fid: "".join(sorted(hs)) for fid, hs in attributed.items() if hs}}
